@@ -1,0 +1,32 @@
+//! Verification seam, compiled only with `--cfg adf_obdd_verif` (off by default).
+//!
+//! A process-global callback slot. The parse and solve closures that run on the blocking pool
+//! report when they have registered themselves as running (`BlockingStart`) and when they have
+//! deregistered (`BlockingEnd`); a simulator that installed a callback can hold a closure at
+//! `BlockingStart` and so decide when the computation finishes relative to everything else.
+//! Without an installed callback both points do nothing.
+#![allow(dead_code)]
+
+use std::sync::RwLock;
+
+use crate::config::RunningInfo;
+
+#[derive(Debug, Clone, Copy, PartialEq, Eq)]
+pub(crate) enum Point {
+    BlockingStart,
+    BlockingEnd,
+}
+
+type Callback = Box<dyn Fn(Point, &RunningInfo) + Send + Sync>;
+
+static CALLBACK: RwLock<Option<Callback>> = RwLock::new(None);
+
+pub(crate) fn install(callback: Callback) {
+    *CALLBACK.write().unwrap() = Some(callback);
+}
+
+pub(crate) fn at(point: Point, info: &RunningInfo) {
+    if let Some(callback) = CALLBACK.read().unwrap().as_ref() {
+        callback(point, info);
+    }
+}
